@@ -22,8 +22,13 @@ from ..tlc import MachineryError, SPECS, require_coverage, run_tlc, write_cfg
 
 logging.disable(logging.CRITICAL)
 ROBUST = os.path.join(SPECS, "robust")
-ALL_TRAVS = ["resolve1", "accessor", "resolve_all", "getobj", "xrefchain", "pagetree", "numtree", "nametree", "outline"]
-ENTRY_TRAVS = ["resolve1", "accessor", "resolve_all", "getobj", "xrefchain", "pagetree", "numtree"]   # reachable from the entry points
+ALL_TRAVS = ["resolve1", "accessor", "resolve_all", "getobj", "xrefchain", "pagetree", "numtree", "nametree", "outline",
+             "form"]
+ENTRY_TRAVS = ["resolve1", "accessor", "resolve_all", "getobj", "xrefchain", "pagetree", "numtree", "form"]   # reachable from the entry points
+DIAMOND_TRAVS = ["pagetree", "resolve_all", "numtree", "nametree", "outline"]     # "form": painting twice is intended
+DIAMOND_N = 8                 # depth TLC explores
+DIAMOND_ENDS = (10, 13, 16)   # depths replayed when the model says the traversal is linear
+DIAMOND_DIVERGES = 18         # depth replayed when the model says it is exponential (2**18 paths)
 # the Dev switch (carried by a known finding) that says "this traversal has no cycle guard in the code"
 GUARD_DEVS = {"resolve1": "Resolve1NoCycleGuard", "accessor": "Resolve1NoCycleGuard", "resolve_all": "ResolveAllNoGuard",
               "getobj": "GetobjNoReentryGuard", "xrefchain": "XRefChainNoGuard", "numtree": "NumTreeNoGuard",
@@ -226,6 +231,14 @@ def realise_graph(g, trav):
             extra[n] = {"Nums": [0, {"S": N("D")}]} if leaf else {"Kids": refs(v)}
         elif trav == "nametree":
             extra[n] = {"Limits": [b"a", b"b"], "Names": [b"aa", 1]} if leaf else {"Kids": refs(v)}
+        elif trav == "form":
+            fd = {"Type": N("XObject"), "Subtype": N("Form"), "BBox": [0, 0, 100, 100]}
+            if leaf:
+                extra[n] = Stream(fd, b"BT /F1 8 Tf 1 1 Td (f) Tj ET\n")
+            else:
+                r = refs(v)
+                fd["Resources"] = {"XObject": {"X%d" % j: x for j, x in enumerate(r)}}
+                extra[n] = Stream(fd, b"".join(b"/X%d Do\n" % j for j in range(len(r))))
         elif trav == "outline":
             d = {"Title": b"t%d" % i, "Dest": [Ref(3), N("Fit")]}
             if not leaf:
@@ -254,6 +267,9 @@ def realise_graph(g, trav):
         return _plain_doc(extra, catalog_extra={"Pages": start}), "entry"
     if trav == "numtree":
         return _plain_doc(extra, catalog_extra={"PageLabels": start}), "entry"
+    if trav == "form":
+        return _plain_doc(extra, page_extra={"Resources": {"Font": {"F1": Ref(4)}, "XObject": {"X": start}}},
+                          contents=CONTENT + b"/X Do\n"), "entry"
     if trav == "nametree":
         return _plain_doc(extra, catalog_extra={"Names": {"Dests": start}}), "lookup_name"
     if trav == "outline":
@@ -301,12 +317,12 @@ def _xref_chain_doc(nodes):
     return bytes(out)
 
 
-def _direct_api(data, how, meter):
+def _direct_api(data, how, meter, caching=True):
     from pdfminer.pdfdocument import PDFDocument
     from pdfminer.pdfparser import PDFParser
 
     def go():
-        doc = PDFDocument(PDFParser(io.BytesIO(data)))
+        doc = PDFDocument(PDFParser(io.BytesIO(data)), caching=caching)
         if how == "lookup_name":
             try:
                 return doc.lookup_name("Dests", b"zz")
@@ -317,13 +333,13 @@ def _direct_api(data, how, meter):
     return workmeter.classify(meter, exc)
 
 
-def run_graph_case(g, trav, meter):
+def run_graph_case(g, trav, meter, caching=True):
     """-> (class: ends | diverges, outcome keys seen, bytes)"""
     data, how = realise_graph(g, trav)
     if how == "entry":
-        ocs = [oc for (_, oc, _, _) in faultrun.run_all(data)]
+        ocs = [oc for (_, oc, _, _) in faultrun.run_all(data, caching=caching)]
     else:
-        ocs = [_direct_api(data, how, meter)]
+        ocs = [_direct_api(data, how, meter, caching)]
     cls = "ends"
     for oc in ocs:
         c = oc.split(":")[0]
@@ -342,23 +358,36 @@ def _graph_work(chunk):
         logging.disable(logging.CRITICAL)
     out = []
     for r in chunk:
-        cls, ocs, data = run_graph_case(r["g"], r["trav"], _METER)
+        cls, ocs, data = run_graph_case(r["g"], r["trav"], _METER, r.get("caching", True))
         out.append((r, cls, ocs, len(data)))
     return out
 
 
-def refgraph_cfg(ck, name, n, maxout, travs, guards, invariants=(), emit=True):
+def refgraph_cfg(ck, name, n, maxout, travs, guards, invariants=(), emit=True, path_guards=("form",), family="all"):
     return write_cfg(os.path.join(ck.tmp, name),
-                     constants={"N": n, "MaxOut": maxout, "Travs": tla_set(travs), "Guards": tla_set(guards), "C": 6},
+                     constants={"N": n, "MaxOut": maxout, "Travs": tla_set(travs), "Guards": tla_set(guards),
+                                "PathGuards": tla_set([p for p in path_guards if p in guards]), "Family": '"%s"' % family,
+                                "C": 6},
                      invariants=list(invariants), constraints=["Emit"] if emit else [])
+
+
+def diamond(d):
+    return [{"k": "node", "out": [i + 2, i + 2]} for i in range(d - 1)] + [{"k": "leaf", "out": []}]
 
 
 def run_refgraph(ck):
     import multiprocessing as mp
     spec = os.path.join(ROBUST, "RefGraph.tla")
     thorough = ck.tier == "thorough"
-    dev = [d for d in active("robust") if d in GUARD_DEVS.values()]
-    coded_guards = ["pagetree"] + [t for t, d in GUARD_DEVS.items() if d not in dev]
+    devs = active("robust")
+    dev = [d for d in devs if d in GUARD_DEVS.values()]
+    coded_guards = ["pagetree", "form"] + [t for t, d in GUARD_DEVS.items() if d not in dev]
+    # guards that remember the enclosing objects only: do_Do's set of forms in progress (intended), and resolve_all
+    # as long as the ResolveAllPathGuardOnly finding is open
+    coded_path = ["form"] + (["resolve_all"] if "ResolveAllPathGuardOnly" in devs else [])
+    if "ResolveAllPathGuardOnly" in devs:
+        dev = dev + ["ResolveAllPathGuardOnly"]
+    ck.extra["refgraph_path_guards_as_coded"] = coded_path
     ck.extra["refgraph_deviations_modelled_as_coded"] = dev
     ck.extra["refgraph_guards_as_coded"] = coded_guards
     spaces = [(3, 2, ALL_TRAVS), (4, 1, ALL_TRAVS)] if thorough else [(2, 2, ALL_TRAVS), (3, 1, ALL_TRAVS)]
@@ -381,7 +410,8 @@ def run_refgraph(ck):
             require_coverage(res, ["ABuild", "AStart", "AResolveStep", "AFinishLoop", "AEnter", "AChild", "AReturn", "AFinish"])
         # (b) as coded: TLC decides termination per (graph, traversal); emitted for replay
         emit = os.path.join(ck.tmp, "rg_%d_%d.ndjson" % (n, maxout))
-        res = run_tlc(spec, refgraph_cfg(ck, "rg_cod_%d_%d.cfg" % (n, maxout), n, maxout, travs, coded_guards),
+        res = run_tlc(spec, refgraph_cfg(ck, "rg_cod_%d_%d.cfg" % (n, maxout), n, maxout, travs, coded_guards,
+                                         path_guards=coded_path),
                       emit=emit, timeout=3000)
         ck.add_tlc(res, "RefGraph.tla as coded (guards %s) %s" % (",".join(coded_guards), tag))
         rows = sorted((json.loads(line) for line in open(emit)), key=lambda r: json.dumps(r, sort_keys=True))
@@ -396,10 +426,43 @@ def run_refgraph(ck):
         pick = rng.sample(diverging, min(len(diverging), k)) + rng.sample(ending, min(len(ending), k))
         ck.extra.setdefault("refgraph_spaces", {})[tag] = {"pairs": len(rows), "diverging_as_coded": len(diverging),
                                                            "replayed": len(pick)}
-        todo.extend(pick)
+        # the caching option of the entry points: form graphs with the caches on and off, the others alternately
+        for j, r in enumerate(pick):
+            if r["trav"] == "form":
+                todo.append(dict(r, caching=True))
+                todo.append(dict(r, caching=False))
+            else:
+                todo.append(dict(r, caching=(j % 2 == 0)))
+    # (b') the diamond family: a chain of containers whose two references both lead to the next one has 2**depth
+    # paths; a traversal must visit each object once, not once per path (work bounded by C * |graph|)
+    res = run_tlc(spec, refgraph_cfg(ck, "rg_dia_int.cfg", DIAMOND_N, 2, DIAMOND_TRAVS, ALL_TRAVS, ["BoundOK"], emit=False,
+                                     family="diamond"), timeout=600, workers=2)
+    ck.add_tlc(res, "RefGraph.tla intended, diamond chain of depth %d" % DIAMOND_N)
+    if not res.ok:
+        raise MachineryError("RefGraph.tla: the guarded traversals violate %s on the diamond chain:\n%s"
+                             % (res.violated, res.error_text[:3000]))
+    emit = os.path.join(ck.tmp, "rg_dia.ndjson")
+    res = run_tlc(spec, refgraph_cfg(ck, "rg_dia_cod.cfg", DIAMOND_N, 2, DIAMOND_TRAVS, coded_guards, path_guards=coded_path,
+                                     family="diamond"), emit=emit, timeout=600, workers=2)
+    ck.add_tlc(res, "RefGraph.tla as coded, diamond chain of depth %d" % DIAMOND_N)
+    rows = sorted((json.loads(line) for line in open(emit)), key=lambda r: r["trav"])
+    os.remove(emit)
+    if sorted(r["trav"] for r in rows) != sorted(DIAMOND_TRAVS):
+        raise MachineryError("RefGraph.tla: diamond family emitted %r" % [r["trav"] for r in rows])
+    dia = {}
+    for r in rows:
+        dia[r["trav"]] = r["status"]
+        tlc_verdicts[("diamond N=%d" % DIAMOND_N, r["trav"], r["status"])] = 1
+        depths = (DIAMOND_DIVERGES,) if r["status"] in ("hang", "recursion") else DIAMOND_ENDS
+        for d in depths:
+            for caching in (True, False):
+                todo.append({"g": diamond(d), "trav": r["trav"], "status": r["status"], "caching": caching,
+                             "family": "diamond", "depth": d})
+    ck.extra["refgraph_diamond_as_coded"] = dia
     # (c) TLC finds the non-terminating ones as violated Bound invariants of the as-coded machine
     if len(coded_guards) < len(ALL_TRAVS):
-        chk = run_tlc(spec, refgraph_cfg(ck, "rg_cod_inv.cfg", 2, 2, ALL_TRAVS, coded_guards, ["BoundOK"], emit=False),
+        chk = run_tlc(spec, refgraph_cfg(ck, "rg_cod_inv.cfg", 2, 2, ALL_TRAVS, coded_guards, ["BoundOK"], emit=False,
+                                         path_guards=coded_path),
                       timeout=600)
         ck.add_tlc(chk, "RefGraph.tla as coded, BoundOK checked (N=2)")
         if chk.ok:
@@ -421,14 +484,17 @@ def run_refgraph(ck):
                 entry = r["trav"] in ENTRY_TRAVS
                 cyc = model != "ends" or cls != "ends"
                 ck.case(len(ocs), ("graph", r["trav"], json.dumps(r["g"])) if cyc or any(v["k"] != "leaf" for v in r["g"]) else None)
-                case = {"kind": "refgraph", "g": r["g"], "trav": r["trav"], "model": r["status"], "observed": ocs}
+                case = {"kind": "refgraph", "g": r["g"], "trav": r["trav"], "model": r["status"], "observed": ocs,
+                        "caching": r.get("caching", True)}
+                gtxt = ("diamond chain of depth %d" % r["depth"]) if r.get("family") == "diamond" else json.dumps(r["g"])
                 for oc in sorted(set(ocs)):
                     c = oc.split(":")[0]
                     if c in ("ok", "family"):
                         continue
                     if entry:
-                        ck.violation(oc, "traversal %s over graph %s: %s (model as coded: %s)"
-                                     % (r["trav"], json.dumps(r["g"]), oc, r["status"]), case)
+                        ck.violation(oc, "traversal %s over graph %s%s: %s (model as coded: %s)"
+                                     % (r["trav"], gtxt, "" if r.get("caching", True) else " with caching off", oc,
+                                        r["status"]), case)
                     else:
                         # get_outlines / lookup_name are not reached by the extraction entry points: outside the
                         # property as stated.  Listed (optional) findings are counted, anything else is a note.
@@ -441,7 +507,7 @@ def run_refgraph(ck):
                     drift += 1
                     if drift <= 5:
                         ck.note("RefGraph.tla/code drift: %s over %s: model %s, code %s %s"
-                                % (r["trav"], json.dumps(r["g"]), r["status"], cls, ocs))
+                                % (r["trav"], gtxt, r["status"], cls, ocs))
                 if agree % 700 == 1 and cyc:
                     ck.sample(dict(case, input_bytes=dlen))
     ck.replayed += len(todo)
@@ -462,7 +528,7 @@ def replay_case(case, path):
         print("%s(%s) STRICT=%s -> %s (%s)" % (case["acc"], case["arg"], case["strict"], got, oc))
         bad = got not in ("value", "default", "PDFTypeError", "none")
     else:
-        cls, ocs, data = run_graph_case(case["g"], case["trav"], meter)
+        cls, ocs, data = run_graph_case(case["g"], case["trav"], meter, case.get("caching", True))
         print("traversal %s over %s: %s %s (model: %s)" % (case["trav"], json.dumps(case["g"]), cls, ocs, case.get("model")))
         bad = any(oc.split(":")[0] not in ("ok", "family") for oc in ocs)
     if bad:
